@@ -127,6 +127,9 @@ pub struct WireOp {
     /// Acceptable: a 4xx refusal that changes nothing, or exactly the protocol outcome
     #[serde(default)]
     pub extra: u8,
+    /// HTTP version of the request (0: 1.1, 1: 1.0, 2: 2). The protocol answer and its headers do not depend on it
+    #[serde(default)]
+    pub ver: u8,
 }
 
 #[derive(Clone, Debug, Serialize, Deserialize, PartialEq)]
@@ -215,6 +218,7 @@ fn gen_wire_op(r: &mut Rng, n_clients: u8, page: u32, allow_big: bool) -> WireOp
         },
         enc: 0,
         extra: 0,
+        ver: if r.chance(12, 100) { 1 + r.below(2) as u8 } else { 0 },
     };
     let is_post = matches!(route, Route::AddVersion | Route::AddSnapshot);
     let has_pid = matches!(route, Route::AddVersion | Route::AddSnapshot | Route::GetChild);
@@ -759,13 +763,13 @@ fn build(plan: &WirePlan, w: &World, op: &WireOp, cur_allow: &Option<HashSet<Uui
             chunks.truncate(1);
         }
     }
-    let label = format!("{} {} cid={:?} pid={:?} ct={:?}{} body={}", method, if path.len() > 80 { &path[..80] } else { &path }, op.cid, op.pid, op.ct, if op.enc != 0 { format!(" content-encoding#{}", op.enc) } else if op.extra != 0 { format!(" extra-header#{}", op.extra) } else { String::new() }, match &op.body {
+    let label = format!("{} {} cid={:?} pid={:?} ct={:?}{} body={}", method, if path.len() > 80 { &path[..80] } else { &path }, op.cid, op.pid, op.ct, format!("{}{}{}", if op.enc != 0 { format!(" content-encoding#{}", op.enc) } else { String::new() }, if op.extra != 0 { format!(" extra-header#{}", op.extra) } else { String::new() }, match op.ver { 1 => " HTTP/1.0", 2 => " HTTP/2", _ => "" }), match &op.body {
         BodyForm::Normal(p, _) => format!("{}B", p.len),
         BodyForm::Limit(d, _) => format!("limit{d:+}"),
         o => format!("{o:?}").chars().take(24).collect(),
     });
     Built {
-        wire: WireReq { method, path, headers, chunks, fail_after, empties, pending_seed: None, stall },
+        wire: WireReq { method, path, headers, chunks, fail_after, empties, pending_seed: None, stall, version: op.ver },
         class,
         cid_bad,
         cid_ambiguous,
@@ -1036,7 +1040,8 @@ pub fn exec(plan: &WirePlan) -> RunOut {
                 if !served_ok && out.violations.len() == nviol_before {
                     if b.req.is_some() || protocol_route {
                         if !is4xx {
-                            let props: &[&str] = if op.extra != 0 { &["C15", "C14"] } else { &["C15"] };
+                            // a partial or conditional answer to a read concerns the payload properties too
+                            let props: &[&str] = if op.extra != 0 && matches!(op.route, Route::GetChild | Route::GetSnapshot) { &["C15", "C14", "C06", "C11"] } else if op.extra != 0 { &["C15", "C14"] } else { &["C15"] };
                             out.violations.push(viol(props, "wire.ambiguous_neither", format!("{} answered {}: neither a refusal nor the model's outcome", b.label, raw.status)));
                         } else if matches!(op.route, Route::GetChild)
                             && matches!(raw.status, 404 | 410)
